@@ -157,121 +157,127 @@ def run(index, rep, tier):
     mod = index.module(TC)
 
     # ---- R04.1
-    nflag = 0
-    nreads = 0
-    for fi in index.functions_in_module(TC, include_methods=False):
-        if FLAG in fi.all_params:
-            nflag += 1
-            nreads += freshness_rule(index, rep, "R04.1", fi)
-        forwarding_rule(index, rep, "R04.1", fi)
-    rep.floor("R04.1", "treecompare functions with the flag", 9, nflag)
-    rep.floor("R04.1", "encoding reads in flagged functions", 10, nreads)
-    # deprecated Tree aliases and other callers of the public functions
-    for fi in index.methods_of(TREE):
-        if any(isinstance(c.func, ast.Attribute) and norm(c.func.value) == "treecompare" for c in calls_in(fi.node)):
+    with rep.section("R04.1"):
+        nflag = 0
+        nreads = 0
+        for fi in index.functions_in_module(TC, include_methods=False):
+            if FLAG in fi.all_params:
+                nflag += 1
+                nreads += freshness_rule(index, rep, "R04.1", fi)
             forwarding_rule(index, rep, "R04.1", fi)
+        rep.floor("R04.1", "treecompare functions with the flag", 9, nflag)
+        rep.floor("R04.1", "encoding reads in flagged functions", 10, nreads)
+        # deprecated Tree aliases and other callers of the public functions
+        for fi in index.methods_of(TREE):
+            if any(isinstance(c.func, ast.Attribute) and norm(c.func.value) == "treecompare" for c in calls_in(fi.node)):
+                forwarding_rule(index, rep, "R04.1", fi)
 
     # ---- R04.2
-    for name in KERNELS:
-        fi = index.function(TC + "." + name)
-        cfg = cfg_of(fi)
-        trees = tree_params(fi)[:2]
-        guards = [(n, r) for n, r in find_namespace_guards(cfg) if set(r) == set(trees)]
-        gids = {g.id for g, _ in guards}
-        uses = []
-        for n in cfg.nodes:
-            es = node_exprs(n) + ([n.ast] if n.kind == "forinit" else [])
-            hit = False
-            for e in es:
-                if e is None:
-                    continue
-                for a, base, node in attr_reads(e):
-                    if (a in ENC_ATTRS or a == "encode_bipartitions") and norm(base) in trees:
-                        hit = True
-            if hit:
-                uses.append(n)
-        ok = bool(guards) and bool(uses) and all(cfg.dominated_by(u, lambda n: n.id in gids) for u in uses)
-        rep.check(ok, "R04.2", fi.qualname, "namespace guard", fn_where(fi),
-                  "%s: `%s.taxon_namespace is not %s.taxon_namespace` -> raise dominates %d uses of the encodings" % (name, trees[0], trees[1], len(uses)),
-                  "%s uses a tree's bipartition encoding on a path that has not compared the two trees' namespaces (bitmasks of different namespaces are not comparable; such trees must be refused)" % fi.qualname)
+    with rep.section("R04.2"):
+        for name in KERNELS:
+            fi = index.function(TC + "." + name)
+            cfg = cfg_of(fi)
+            trees = tree_params(fi)[:2]
+            guards = [(n, r) for n, r in find_namespace_guards(cfg) if set(r) == set(trees)]
+            gids = {g.id for g, _ in guards}
+            uses = []
+            for n in cfg.nodes:
+                es = node_exprs(n) + ([n.ast] if n.kind == "forinit" else [])
+                hit = False
+                for e in es:
+                    if e is None:
+                        continue
+                    for a, base, node in attr_reads(e):
+                        if (a in ENC_ATTRS or a == "encode_bipartitions") and norm(base) in trees:
+                            hit = True
+                if hit:
+                    uses.append(n)
+            ok = bool(guards) and bool(uses) and all(cfg.dominated_by(u, lambda n: n.id in gids) for u in uses)
+            rep.check(ok, "R04.2", fi.qualname, "namespace guard", fn_where(fi),
+                      "%s: `%s.taxon_namespace is not %s.taxon_namespace` -> raise dominates %d uses of the encodings" % (name, trees[0], trees[1], len(uses)),
+                      "%s uses a tree's bipartition encoding on a path that has not compared the two trees' namespaces (bitmasks of different namespaces are not comparable; such trees must be refused)" % fi.qualname)
 
     # ---- R04.3
-    fi = index.function(TC + "._get_length_diffs")
-    _length_symmetry(rep, fi)
+    with rep.section("R04.3"):
+        fi = index.function(TC + "._get_length_diffs")
+        _length_symmetry(rep, fi)
 
     # ---- R04.4
-    nref = 0
-    for f2 in list(index.functions.values()):
-        m = f2.module
-        for n in walk_no_nested(f2.node):
-            if isinstance(n, ast.Attribute) and isinstance(n.value, ast.Name) and n.value.id == "treecompare":
-                tgt = index.resolve_expr(m, n.value)
-                if tgt is not mod:
-                    continue
-                nref += 1
-                ok = n.attr in mod.functions or n.attr in mod.classes or n.attr in mod.assigns
-                rep.check(ok, "R04.4", f2.qualname, "treecompare.%s" % n.attr, fn_where(f2, n),
-                          "%s references treecompare.%s" % (f2.qualname, n.attr),
-                          "%s references `treecompare.%s`, which does not exist in dendropy.calculate.treecompare: the call raises AttributeError" % (f2.qualname, n.attr))
-    rep.floor("R04.4", "references to treecompare.<name>", 5, nref)
+    with rep.section("R04.4"):
+        nref = 0
+        for f2 in list(index.functions.values()):
+            m = f2.module
+            for n in walk_no_nested(f2.node):
+                if isinstance(n, ast.Attribute) and isinstance(n.value, ast.Name) and n.value.id == "treecompare":
+                    tgt = index.resolve_expr(m, n.value)
+                    if tgt is not mod:
+                        continue
+                    nref += 1
+                    ok = n.attr in mod.functions or n.attr in mod.classes or n.attr in mod.assigns
+                    rep.check(ok, "R04.4", f2.qualname, "treecompare.%s" % n.attr, fn_where(f2, n),
+                              "%s references treecompare.%s" % (f2.qualname, n.attr),
+                              "%s references `treecompare.%s`, which does not exist in dendropy.calculate.treecompare: the call raises AttributeError" % (f2.qualname, n.attr))
+        rep.floor("R04.4", "references to treecompare.<name>", 5, nref)
 
     # ---- R04.6
-    rep.rule("R04.6", "distance kernels never mutate a tree's cached bipartition data: no store/mutator call through a name aliased (without copying) to a tree parameter's encoding or edge maps")
-    nk = 0
-    for f6 in index.functions_in_module(TC, include_methods=False):
-        tp = tree_params(f6)
-        if not tp:
-            continue
-        nk += 1
-        t = tainted_names(f6, tp)
-        bad = [b for b in writes_rooted_at(f6, t, ()) if not (isinstance(b, ast.Call) and b.func.attr in ("encode_bipartitions",))]
-        rep.check(not bad, "R04.6", f6.qualname, "mutates tree-derived data: %s" % (norm(bad[0])[:60] if bad else ""), fn_where(f6, bad[0] if bad else None),
-                  "%s: nothing aliased to %s's cached data is mutated (names derived from the trees: %s)" % (f6.name, tp, sorted(t - set(tp))[:6]),
-                  "%s mutates `%s`, which is (an alias of) cached bipartition data of one of its tree arguments: a distance call empties/changes the tree's own edge map, so later calls - or the same call on (t, t) - give wrong results" % (f6.qualname, norm(bad[0])[:70] if bad else ""))
-    rep.floor("R04.6", "treecompare functions with tree parameters", 8, nk)
+    with rep.section("R04.6"):
+        rep.rule("R04.6", "distance kernels never mutate a tree's cached bipartition data: no store/mutator call through a name aliased (without copying) to a tree parameter's encoding or edge maps")
+        nk = 0
+        for f6 in index.functions_in_module(TC, include_methods=False):
+            tp = tree_params(f6)
+            if not tp:
+                continue
+            nk += 1
+            t = tainted_names(f6, tp)
+            bad = [b for b in writes_rooted_at(f6, t, ()) if not (isinstance(b, ast.Call) and b.func.attr in ("encode_bipartitions",))]
+            rep.check(not bad, "R04.6", f6.qualname, "mutates tree-derived data: %s" % (norm(bad[0])[:60] if bad else ""), fn_where(f6, bad[0] if bad else None),
+                      "%s: nothing aliased to %s's cached data is mutated (names derived from the trees: %s)" % (f6.name, tp, sorted(t - set(tp))[:6]),
+                      "%s mutates `%s`, which is (an alias of) cached bipartition data of one of its tree arguments: a distance call empties/changes the tree's own edge map, so later calls - or the same call on (t, t) - give wrong results" % (f6.qualname, norm(bad[0])[:70] if bad else ""))
+        rep.floor("R04.6", "treecompare functions with tree parameters", 8, nk)
 
     # ---- R04.5
-    fi = index.function(TC + ".false_positives_and_negatives")
-    t1, t2 = tree_params(fi)[:2]
-    sets = {}
-    for n in walk_no_nested(fi.node):
-        if isinstance(n, ast.Assign) and isinstance(n.value, ast.Call) and call_name(n.value) in ("set", "frozenset") and n.value.args:
-            a = n.value.args[0]
-            if isinstance(a, ast.Attribute) and a.attr == "bipartition_encoding":
-                sets[norm(n.targets[0])] = norm(a.value)
-    diffs = {}
-    for n in walk_no_nested(fi.node):
-        if isinstance(n, ast.Assign):
-            v = n.value
-            if isinstance(v, ast.Call) and call_name(v) == "difference" and isinstance(v.func, ast.Attribute) and v.args:
-                diffs[norm(n.targets[0])] = (sets.get(norm(v.func.value)), sets.get(norm(v.args[0])))
-            elif isinstance(v, ast.BinOp) and isinstance(v.op, ast.Sub):
-                diffs[norm(n.targets[0])] = (sets.get(norm(v.left)), sets.get(norm(v.right)))
-    ret = [n for n in walk_no_nested(fi.node) if isinstance(n, ast.Return)]
-    ok = False
-    got = None
-    if len(ret) == 1 and isinstance(ret[0].value, ast.Tuple) and len(ret[0].value.elts) == 2:
-        parts = []
-        for e in ret[0].value.elts:
-            if isinstance(e, ast.Call) and call_name(e) == "len" and e.args:
-                parts.append(diffs.get(norm(e.args[0])))
-            else:
-                parts.append(None)
-        got = parts
-        ok = parts == [(t2, t1), (t1, t2)]
-    rep.check(ok, "R04.5", fi.qualname, "returned differences %s" % (got,), fn_where(fi),
-              "false_positives_and_negatives returns (|enc(%s) - enc(%s)|, |enc(%s) - enc(%s)|)" % (t2, t1, t1, t2),
-              "false_positives_and_negatives no longer returns (len(comparison - reference), len(reference - comparison)) of the two trees' own encodings: got %s" % (got,))
-    fi = index.function(TC + ".symmetric_difference")
-    ret = [n for n in walk_no_nested(fi.node) if isinstance(n, ast.Return)]
-    ok = False
-    if len(ret) == 1 and isinstance(ret[0].value, ast.BinOp) and isinstance(ret[0].value.op, ast.Add):
-        l, r = ret[0].value.left, ret[0].value.right
-        if isinstance(l, ast.Subscript) and isinstance(r, ast.Subscript) and norm(l.value) == norm(r.value) and {const_value(l.slice), const_value(r.slice)} == {0, 1}:
-            src = [n for n in walk_no_nested(fi.node) if isinstance(n, ast.Assign) and norm(n.targets[0]) == norm(l.value)]
-            ok = bool(src) and isinstance(src[0].value, ast.Call) and call_name(src[0].value) == "false_positives_and_negatives"
-    rep.check(ok, "R04.5", fi.qualname, "sum of the two one-sided differences", fn_where(fi),
-              "symmetric_difference = false positives + false negatives", "symmetric_difference is no longer the sum of the two one-sided differences")
+    with rep.section("R04.5"):
+        fi = index.function(TC + ".false_positives_and_negatives")
+        t1, t2 = tree_params(fi)[:2]
+        sets = {}
+        for n in walk_no_nested(fi.node):
+            if isinstance(n, ast.Assign) and isinstance(n.value, ast.Call) and call_name(n.value) in ("set", "frozenset") and n.value.args:
+                a = n.value.args[0]
+                if isinstance(a, ast.Attribute) and a.attr == "bipartition_encoding":
+                    sets[norm(n.targets[0])] = norm(a.value)
+        diffs = {}
+        for n in walk_no_nested(fi.node):
+            if isinstance(n, ast.Assign):
+                v = n.value
+                if isinstance(v, ast.Call) and call_name(v) == "difference" and isinstance(v.func, ast.Attribute) and v.args:
+                    diffs[norm(n.targets[0])] = (sets.get(norm(v.func.value)), sets.get(norm(v.args[0])))
+                elif isinstance(v, ast.BinOp) and isinstance(v.op, ast.Sub):
+                    diffs[norm(n.targets[0])] = (sets.get(norm(v.left)), sets.get(norm(v.right)))
+        ret = [n for n in walk_no_nested(fi.node) if isinstance(n, ast.Return)]
+        ok = False
+        got = None
+        if len(ret) == 1 and isinstance(ret[0].value, ast.Tuple) and len(ret[0].value.elts) == 2:
+            parts = []
+            for e in ret[0].value.elts:
+                if isinstance(e, ast.Call) and call_name(e) == "len" and e.args:
+                    parts.append(diffs.get(norm(e.args[0])))
+                else:
+                    parts.append(None)
+            got = parts
+            ok = parts == [(t2, t1), (t1, t2)]
+        rep.check(ok, "R04.5", fi.qualname, "returned differences %s" % (got,), fn_where(fi),
+                  "false_positives_and_negatives returns (|enc(%s) - enc(%s)|, |enc(%s) - enc(%s)|)" % (t2, t1, t1, t2),
+                  "false_positives_and_negatives no longer returns (len(comparison - reference), len(reference - comparison)) of the two trees' own encodings: got %s" % (got,))
+        fi = index.function(TC + ".symmetric_difference")
+        ret = [n for n in walk_no_nested(fi.node) if isinstance(n, ast.Return)]
+        ok = False
+        if len(ret) == 1 and isinstance(ret[0].value, ast.BinOp) and isinstance(ret[0].value.op, ast.Add):
+            l, r = ret[0].value.left, ret[0].value.right
+            if isinstance(l, ast.Subscript) and isinstance(r, ast.Subscript) and norm(l.value) == norm(r.value) and {const_value(l.slice), const_value(r.slice)} == {0, 1}:
+                src = [n for n in walk_no_nested(fi.node) if isinstance(n, ast.Assign) and norm(n.targets[0]) == norm(l.value)]
+                ok = bool(src) and isinstance(src[0].value, ast.Call) and call_name(src[0].value) == "false_positives_and_negatives"
+        rep.check(ok, "R04.5", fi.qualname, "sum of the two one-sided differences", fn_where(fi),
+                  "symmetric_difference = false positives + false negatives", "symmetric_difference is no longer the sum of the two one-sided differences")
 
 
 def _length_symmetry(rep, fi):
